@@ -34,10 +34,11 @@ CONFIGS = [("range", (2, 4), "auto"), ("sorted_dup", (2, 1, 3), "auto"), ("unsor
 # family -> (frames, levels, steps function name, number of configurations per program (rotating), shards per frame)
 FAMILIES = {
     "quick": {
-        "O2": (("num", "str", "cat"), ("full", "full"), "opt_steps_for", 1, 6),
+        "O2": (("num", "str"), ("full", "full"), "opt_steps_for", 1, 8),
         "X2": (("num",), ("full", "full"), "opt_ext_steps_for", 1, 12),
         "O3": (("num",), ("core", "core", "core"), "opt_steps_for", 1, 8),
-        "R2": (("dt", "cat"), ("core", "full"), "steps_for", 1, 4),
+        "R2": (("dt",), ("core", "full"), "steps_for", 1, 4),
+        "OR": (("num",), ("or4", "core"), "or_then_core", 1, 6),
     },
     "thorough": {
         "O2": (("num", "str", "bool", "dt", "cat", "nullable"), ("full", "full"), "opt_steps_for", 3, 8),
@@ -46,6 +47,8 @@ FAMILIES = {
         "F3": (("num",), ("full", "full", "full"), "opt_steps_for", 1, 48),
         "O4": (("num",), ("core", "core", "core", "core"), "opt_steps_for", 1, 24),
         "R2": (("num", "str", "bool", "dt", "cat", "nullable"), ("core", "full"), "steps_for", 2, 6),
+        "OR": (("num", "nullable"), ("or5", "core"), "or_then_core", 2, 12),
+        "OR3": (("num",), ("core", "or4", "core"), "or_then_core3", 1, 12),
     },
 }
 
@@ -61,12 +64,14 @@ def RULE(tier):
     )
     if tier == "quick":
         return common + (
-            "O2: EVERY 2-step program over the optimizer alphabet on frames num/str/cat; X2: every 2-step program over the alphabet extended with 26 producers (groupby "
+            "O2: EVERY 2-step program over the optimizer alphabet on frames num/str; X2: every 2-step program over the alphabet extended with 26 producers (groupby "
             "aggregations, set_index, sort_values, merges incl. a filtered right side, drop_duplicates, value_counts, cumsum, rolling, shift, repartition, concat, describe) that "
             "contains an extended step, frame num; O3: every 3-step program over the 13-step core alphabet, frame num; R2: every C36 program (core x full row-wise alphabet, all "
-            "str/dt/cat accessor members) on frames dt/cat.  One configuration per program, rotating over 3 (known divisions / duplicated labels / unknown divisions with empty partitions)."
+            "str/dt accessor members) on frame dt; OR: EVERY filter whose predicate is an OR of 3 or 4 clauses built from a pool of 4 atomic predicates -- all 24 assignments of "
+            "distinct atoms to (X,Y,Z,W) x the 6 clause shapes (X&Y)|(X&Z)|W, (X&Y)|W|(X&Z), W|(X&Y)|(X&Z), (X&Y)|(X&Z)|W|Z, (X&Y)|W|(X&Z)|(W&Y), W|(X&Y)|Z|(X&Z) -- "
+            "followed by every consumer of the 13-step core alphabet, frame num.  One configuration per program, rotating over 3 (known divisions / duplicated labels / unknown divisions with empty partitions)."
         )
-    return common + "O2, X2, R2 on all 6 frames x 2-3 configurations; O3 = core^3 on all frames x 3 configurations; F3 = EVERY 3-step program over the full optimizer alphabet on frame num (~64k); O4 = core^4 on frame num."
+    return common + "O2, X2, R2 on all 6 frames x 2-3 configurations; O3 = core^3 on all frames x 3 configurations; F3 = EVERY 3-step program over the full optimizer alphabet on frame num (~64k); O4 = core^4 on frame num; OR with a pool of 5 atoms (120 assignments x 6 shapes) on frames num/nullable x 2 configurations; OR3 = core producer x OR-filter x core consumer."
 
 
 def shards(tier):
@@ -78,10 +83,14 @@ def shards(tier):
     return out
 
 
+def or_then_core3(p, level="full"):
+    return P.or_filter_steps(p, 4) if level == "or4" else P.opt_steps_for(p, "core")
+
+
 def cases_of(shard, tier, counters=None):
     fam, fname, part, n = shard
     frames, levels, fn, ncfg, nsh = FAMILIES[tier][fam]
-    steps = getattr(P, fn)
+    steps = or_then_core3 if fn == "or_then_core3" else getattr(P, fn)
     pdf0 = dfh.base_frames(0, NROWS)[fname]
     pick = lambda i: i % n == part  # noqa: E731
     for ki, kind in enumerate(sorted({c[0] for c in CONFIGS})):
@@ -243,7 +252,14 @@ def consumer_class(step):
 
 
 def ALPHABET(p, level="full"):
-    return P.opt_ext_steps_for(p) + P.steps_for(p, "full")
+    return P.opt_ext_steps_for(p) + P.steps_for(p, "full") + P.or_filter_steps(p, 5)
+
+
+def producer_name(step):
+    """like P.chain_sig, but a filter whose predicate is an OR is its own producer class (it is rewritten by rewrite_filters)"""
+    if step[0] in ("item", "loc") and step[2][0] == "bin" and step[2][1] == "|":
+        return "filter[or]"
+    return P.chain_sig(step)
 
 
 def minimize(case, problems):
@@ -277,7 +293,7 @@ def run_case(case, ctx, pxs=None):
         return
     prog, problems = minimize(case, problems)
     # name = the producer whose rewrite goes wrong (every consumer class of it is one finding); a 1-step program is named by itself
-    name = (P.chain_sig(prog[-2]) + ">*") if len(prog) >= 2 else P.chain_sig(prog[-1])
+    name = (producer_name(prog[-2]) + ">*") if len(prog) >= 2 else producer_name(prog[-1])
     for stage, failure, detail in problems:
         ctx.violation(f"{stage}:{failure}:{name}", case, f"minimal failing program [{P.program_src(prog)}]: {detail}")
 
